@@ -174,7 +174,8 @@ def layerCase (op a b c name : String) (dmg : Dmg := none) : Option String := do
   let gm : Layer.Group := ⟨g.fileId, g.chunkId, g.layerGroupId, g.name⟩
   if let some (seed, k) := dmg then
     if op != "layer_parse" then none
-    let (file, o) := redraw Layer.fromExisting (Spec.Layer.encode g) k 256 16 seed
+    -- half of the damage inside the 36 bytes of file and chunk header, the rest anywhere (the name)
+    let (file, o) := redraw Layer.fromExisting (Spec.Layer.encode g) k 36 16 seed
     return answer ("layer_parse " ++ Bytes.toHex file) (← mutOutcome showGroupM o) ["corr", "mut"]
   match op with
   | "layer_parse" =>
@@ -224,7 +225,9 @@ def pbdCase (its lks fromS toS : String)
   if !(decide (Spec.Pbd.WFTree f) && decide (Spec.Pbd.WFLayout f)) then none
   let file ← enc f
   if let some (seed, k) := dmg then
-    let file := Mutate.mutate file seed k
+    -- even seeds: half of the damage inside the item and link tables of the canonical layout
+    -- (4 + 12 n + 8 n bytes); odd seeds: inside the first 256 bytes
+    let file := Mutate.mutate file seed k (if seed % 2 == 0 then 4 + 20 * f.items.length else 256)
     let model ← match Pbd.fromExisting file with
       | .ok h => mutOutcome showBonesLatin1 (Pbd.getDeformMatrices h a b)
       | .unmodelled => none
